@@ -23,7 +23,7 @@ def spec_matches(spec, out):
     if kind == "typeerror":
         return out == {"e": "TypeError"}
     if kind == "valueerror":
-        return out == {"e": "ValueError:nonpositive"}
+        return common.same_outcome(out, {"e": "ValueError:nonpositive"})
     return False
 
 
@@ -43,7 +43,7 @@ def model_matches(m, out):
         if not cum:
             return out["g"] in pop
         return False
-    return m == out
+    return common.same_outcome(m, out)
 
 
 def _num_is_zero(c):
